@@ -272,14 +272,14 @@ LoadSeqs  == IF Cardinality(Menu) > 6 THEN {}                                   
              ELSE {<<p>> : p \in LoadPairs} \cup {pq \in LoadPairs \X LoadPairs : pq[1][1] = pq[2][1] /\ pq[1][2] # pq[2][2]}
 Load(sq, ow) ==
   LET a  == [a |-> "Load", sq |-> sq, ow |-> ow]
-      D1 == LoadFold(defs, sq, ow)
-      ch == {sq[i][1] : i \in 1..Len(sq)} IN
+      D1 == TLCEval(LoadFold(defs, sq, ow))
+      ch == TLCEval({sq[i][1] : i \in 1..Len(sq)}) IN
   /\ \A l \in ch : FreeTarget(l)
   /\ Acyclic(D1, reg) /\ WellDeclared(D1, reg)
   /\ IF frozen THEN IF ow \/ \E l \in ch : defs[l] = NoDef THEN Refuse(a)           \* the first register / unregister refuses
-                    ELSE Unchanged /\ last' = a @@ [exc |-> "none"]                  \* every entry skipped
+                    ELSE Unchanged /\ last' = TLCEval(a @@ [exc |-> "none"])         \* every entry skipped
      ELSE /\ defs' = D1
-          /\ ghost' = {x \in Leaf : x \in ghost \/ (x \in ch /\ D1[x] # defs[x]) \/ (x \in ch /\ ow)}
+          /\ ghost' = TLCEval({x \in Leaf : x \in ghost \/ (x \in ch /\ D1[x] # defs[x]) \/ (x \in ch /\ ow)})
           /\ UNCHANGED <<mem, reg, kprev, frozen>>
           /\ last' = TLCEval(a @@ [exc |-> "none", idx |-> Idx(D1, reg)])
 
